@@ -10,6 +10,8 @@ use credx::statement::*;
 use serde_json::{json, Value};
 
 struct View {
+    /// opaque byte-string leaves (ciphertexts, proof blobs)
+    blobs: Vec<(String, Vec<u8>)>,
     /// scalar-looking leaves that did not parse (must stay 0: a wrong reading would blind the catalogue)
     unparsed: usize,
     scalars: Vec<(String, Scalar)>,
@@ -22,13 +24,24 @@ fn view_of<S: ShortGroupSignatureScheme>(p: &Presentation<S>) -> View {
     let v = serde_json::to_value(p).unwrap();
     let mut ls = vec![];
     leaves(&v, &mut vec![], &mut ls);
-    let mut out = View { unparsed: 0, scalars: vec![], g1: vec![], g2: vec![], challenge: p.challenge };
+    let mut out = View { blobs: vec![], unparsed: 0, scalars: vec![], g1: vec![], g2: vec![], challenge: p.challenge };
     for (path, leaf) in ls {
         // disclosed claims (also the proof's own copy of their scalars) are not hidden material
         if path.iter().any(|s| s == "disclosed_messages") {
             continue;
         }
         let name = path.join("/");
+        // byte vectors written as arrays of numbers (the symmetric ciphertext of the encrypt-and-decrypt proof)
+        if path.len() >= 2 && path[path.len() - 2] == "ciphertext" {
+            if let Some(b) = leaf.as_u64() {
+                let parent = path[..path.len() - 1].join("/");
+                match out.blobs.last_mut() {
+                    Some((n, v)) if *n == parent => v.push(b as u8),
+                    _ => out.blobs.push((parent, vec![b as u8])),
+                }
+                continue;
+            }
+        }
         match leaf_kind(&leaf) {
             LeafKind::Scalar => {
                 // ByteProof scalars are written with `prime_field` (little-endian repr); everything else big-endian
@@ -55,9 +68,15 @@ fn view_of<S: ShortGroupSignatureScheme>(p: &Presentation<S>) -> View {
                     out.g2.push((name, q));
                 }
             }
+            LeafKind::Other if path.last().map(|s| s == "ciphertext").unwrap_or(false) => {
+                if let Some(b) = leaf.as_str().and_then(|t| hex::decode(t).ok()) {
+                    out.blobs.push((name, b));
+                }
+            }
             // opaque proof blobs (bulletproofs): every aligned 48-byte chunk that is a compressed G1 point
             LeafKind::Other if path.last().map(|s| s == "proof" || s == "range_proof").unwrap_or(false) => {
                 if let Some(b) = leaf.as_str().and_then(|t| hex::decode(t).ok()) {
+                    out.blobs.push((name.clone(), b.clone()));
                     for (k, ch) in b.chunks_exact(48).enumerate() {
                         if let Some(q) = <[u8; 48]>::try_from(ch).ok().and_then(|a| Option::<G1Affine>::from(G1Affine::from_compressed(&a))) {
                             out.g1.push((format!("{}#{}", name, k), G1Projective::from(q)));
@@ -496,6 +515,18 @@ fn c07_suite<S: ShortGroupSignatureScheme>(em: &mut Emitter, base: &mut Rng, sui
         // two presentations of the same credential: response difference quotient at equal positions
         if let Out::Ok(p2) = scn.create() {
             let v2 = view_of(&p2);
+            // a transmitted group element that is the same in two presentations of one credential is a deterministic
+            // function of the credential: whatever it is, a guess of the hidden claims can be tested against it
+            for ((n, a), (_, b)) in view.g1.iter().zip(v2.g1.iter()) {
+                if a == b && !bool::from(a.is_identity()) && !gens.iter().any(|(_, q)| q == a) {
+                    found.push(format!("transmitted-element-is-deterministic:{}", n));
+                }
+            }
+            for ((n, a), (_, b)) in view.g2.iter().zip(v2.g2.iter()) {
+                if a == b && !bool::from(a.is_identity()) {
+                    found.push(format!("transmitted-element-is-deterministic:{}", n));
+                }
+            }
             if v2.challenge != view.challenge {
                 let inv = (view.challenge - v2.challenge).invert().unwrap();
                 for ((n, a), (_, b)) in view.scalars.iter().zip(v2.scalars.iter()) {
@@ -717,6 +748,19 @@ fn links(a: &View, b: &View, gens: &[(String, G1Projective)]) -> Vec<String> {
     for ((n, x), (_, y)) in a.g2.iter().zip(b.g2.iter()) {
         if x == y {
             out.push(format!("equal-g2:{}", n));
+        }
+    }
+    // byte strings sent in the clear (symmetric ciphertexts with their nonce, proof blobs): an aligned 8-byte window that is
+    // the same in both presentations
+    for ((n, x), (_, y)) in a.blobs.iter().zip(b.blobs.iter()) {
+        let m = x.len().min(y.len());
+        let mut o = 0;
+        while o + 8 <= m {
+            if x[o..o + 8] == y[o..o + 8] && x[o..o + 8].iter().any(|z| *z != 0) {
+                out.push(format!("equal-bytes:{}:offset-{}", n, o));
+                break;
+            }
+            o += 4;
         }
     }
     // the difference of two G1 leaves is a constant of the credential (two blinded points sharing their blinding term)
